@@ -107,7 +107,7 @@ def run(prop, tier, seed, workdir):
     for s in sweep:
         nfd_len = len(unicodedata.normalize("NFD", "".join(chr(c) for c in s)))
         for mode in (0, 1):
-            for dmax in range(1, nfd_len + 7):
+            for dmax in range(0, nfd_len + 7):          # dmax = 0: dest is the first element of the inaccessible page - nothing may be stored
                 cid += 1
                 meta[cid] = ("n", mode, dmax, s)
                 lines.append("%d n %d %d %d %s" % (cid, mode, dmax, len(s), " ".join(map(str, s))))
@@ -161,7 +161,7 @@ def run(prop, tier, seed, workdir):
                 # reorder takes decomposed input; feed the unordered decomposition (marks in source order)
                 src = [c for ch in q for c in nfd([ch])] if src is q else src
             top = (len(dq) if op != "c" else len(src)) + (7 if op == "d" else 3)
-            for dmax in (range(1, top + 1) if full else sorted({1, max(1, len(src) - 1), len(src), len(src) + 1, top})):
+            for dmax in (range(0, top + 1) if full else sorted({0, 1, max(1, len(src) - 1), len(src), len(src) + 1, top})):
                 stage.append((op, dmax, src))
     for op, dmax, src in stage:
         cid += 1
